@@ -29,7 +29,18 @@ SplitV(L) ==
   LET D == SetOf(L.arg.d)
       t == Tokens(L.arg.s, D)
       e == [tokens |-> t, tokens_joined |-> NonDelim(L.arg.s, D)]
-  IN V(FirstBad(<<"tokens", "tokens_joined">>, e, L.obs), TokClass(t), e)
+  IN IF L.a = "SplitSet"
+     THEN V(FirstBad(<<"tokens", "tokens_explicit", "tokens_joined">>, e @@ [tokens_explicit |-> t], L.obs), TokClass(t), e)
+     ELSE V(FirstBad(<<"tokens", "tokens_joined">>, e, L.obs), TokClass(t), e)
+
+\* the output vector of tokenize used twice: the second call's tokens are at the end, in order; whether the first
+\* call's tokens are still in front of them is not stated
+ReuseV(L) ==
+  LET D  == SetOf(L.arg.d)
+      t1 == Tokens(L.arg.s1, D)
+      t2 == Tokens(L.arg.s2, D)
+      e  == [first |-> t1, after |-> t1 \o t2]
+  IN V(IF L.obs.first # t1 THEN "first" ELSE IF L.obs.after = t1 \o t2 \/ L.obs.after = t2 THEN "" ELSE "after", "", e)
 
 LcpV(L) == LET e == [lcp |-> LcpScan(L.arg.x, L.arg.y)] IN V(FirstBad(<<"lcp">>, e, L.obs), "", e)
 BeginsV(L) == LET e == [ret |-> IsPrefixOf(L.arg.y, L.arg.x)] IN V(FirstBad(<<"ret">>, e, L.obs), "", e)
@@ -58,8 +69,9 @@ FnV(L) ==
       bad ==
         IF ~Eq(f, L.arg.s) THEN "str"          \* the file name is the argument up to trailing separators
         ELSE IF L.a = "FnSplit" THEN           \* both constructors, both conversions, the decomposition
-             FirstBad(<<"base", "conv", "cstr", "path", "str_c">>,
-                      [path |-> F!PathOf(f), base |-> b, str_c |-> f, conv |-> f, cstr |-> f], L.obs)
+             FirstBad(<<"base", "conv", "cstr", "eq_self", "ne_self", "path", "str_c", "streamed">>,
+                      [path |-> F!PathOf(f), base |-> b, str_c |-> f, conv |-> f, cstr |-> f, streamed |-> f,
+                       eq_self |-> TRUE, ne_self |-> FALSE], L.obs)
         ELSE IF L.a = "FnNameExt" THEN
              IF sp /\ L.obs.name = b /\ L.obs.ext = <<>> THEN ""
              ELSE FirstBad(<<"ext", "name">>, [name |-> F!NameOf(f), ext |-> F!ExtOf(f)], L.obs)
@@ -80,7 +92,9 @@ FnV(L) ==
              ELSE IF ~F!SameName(L.obs.res_fn, j) THEN "res_fn"
              ELSE IF ~F!SameName(L.obs.res_str, j) THEN "res_str"
              ELSE IF L.obs.res_fn # L.obs.res_str THEN "overloads-agree"
-             ELSE FirstBad(<<"base", "path">>, [path |-> F!PathOf(L.obs.res_fn), base |-> F!BaseOf(L.obs.res_fn)], L.obs)
+             ELSE FirstBad(<<"base", "eq", "ne", "path">>,
+                           [path |-> F!PathOf(L.obs.res_fn), base |-> F!BaseOf(L.obs.res_fn),
+                            eq |-> (f = L.obs.ostr), ne |-> (f # L.obs.ostr)], L.obs)          \* == / != : equality of the names
         ELSE \* FnRecompose: FileName(path()) + base() names the file again, with either overload
              IF ~F!SameName(L.obs.res_fn, f) THEN "res_fn"
              ELSE IF ~F!SameName(L.obs.res_str, f) THEN "res_str"
@@ -105,6 +119,7 @@ SiV(L) ==
 Verdict(L) ==
   LET v == IF "unexpected_exception" \in DOMAIN L.obs THEN V("unexpected_exception", "", <<>>)
            ELSE IF L.a \in {"SplitChar", "SplitSet", "Tokenize"} THEN SplitV(L)
+           ELSE IF L.a = "TokenizeReuse" THEN ReuseV(L)
            ELSE IF L.a = "Lcp" THEN LcpV(L)
            ELSE IF L.a = "BeginsWith" THEN BeginsV(L)
            ELSE IF L.a = "UrlParse" THEN UrlV(L)
